@@ -354,40 +354,43 @@ def run_case(case):
                     if not fitted:
                         continue
                     dat = D[0]
-                    P = K.probes(kind, dat)
-                    P = _layout(P, lay) if arrays else P
-                    dP = _dig(P)
-                    for meth in ("predict", "predict_proba", "transform", "score", "decision_function"):
-                        if not hasattr(est, meth):
-                            continue
-                        try:
-                            if kind == "ts":
-                                if meth == "predict":
-                                    est.predict(None, dat["y"])
+                    P_full = K.probes(kind, dat)
+                    # batch sizes: the full probe set, and batches of one and two rows (fewer rows than buckets / clusters / workers)
+                    batches = [P_full] + ([P_full[:1], P_full[:2]] if arrays else [])
+                    for P in batches:
+                        P = _layout(P, lay) if arrays else P
+                        dP = _dig(P)
+                        for meth in ("predict", "predict_proba", "transform", "score", "decision_function"):
+                            if not hasattr(est, meth):
                                 continue
-                            if kind == "recip":
-                                if meth == "transform":
-                                    est.transform(P, numpy.resize(dat["y"], len(P)))
-                                continue
-                            if meth == "score":
-                                yy = dat.get("y")
-                                if yy is None or not arrays:
+                            try:
+                                if kind == "ts":
+                                    if meth == "predict":
+                                        est.predict(None, dat["y"])
                                     continue
-                                est.score(_layout(dat["X"], lay), _layout(yy, lay))
-                            else:
-                                getattr(est, meth)(P)
-                        except Exception:
-                            pass
-                        if _dig(P) != dP:
-                            bad("caller data modified by %s" % meth, meth, hdesc)
-                        try:
-                            after = K.flat_params(est)
-                        except Exception as e:
-                            bad("get_params raises %s" % type(e).__name__, "after " + meth, "%s %s" % (e, hdesc))
-                            break
-                        if after != before:
-                            d = [(k, before.get(k), after.get(k)) for k in sorted(set(before) | set(after)) if before.get(k) != after.get(k)]
-                            bad("hyper-parameters changed by %s" % meth, meth, "%r %s" % (d[:3], hdesc))
+                                if kind == "recip":
+                                    if meth == "transform":
+                                        est.transform(P, numpy.resize(dat["y"], len(P)))
+                                    continue
+                                if meth == "score":
+                                    yy = dat.get("y")
+                                    if yy is None or not arrays:
+                                        continue
+                                    est.score(_layout(dat["X"], lay), _layout(yy, lay))
+                                else:
+                                    getattr(est, meth)(P)
+                            except Exception:
+                                pass
+                            if _dig(P) != dP:
+                                bad("caller data modified by %s" % meth, meth, hdesc)
+                            try:
+                                after = K.flat_params(est)
+                            except Exception as e:
+                                bad("get_params raises %s" % type(e).__name__, "after " + meth, "%s %s" % (e, hdesc))
+                                break
+                            if after != before:
+                                d = [(k, before.get(k), after.get(k)) for k in sorted(set(before) | set(after)) if before.get(k) != after.get(k)]
+                                bad("hyper-parameters changed by %s" % meth, meth, "%r %s" % (d[:3], hdesc))
     # weighted fits on grouped data with patterns of ZERO weights (a whole group masked out, every second row masked out) and
     # fractional / large weights elsewhere: branches for empty or weightless clusters / buckets / leaves are only reached here
     if takes_w and arrays and kind in ("reg", "clf", "cluster") and case["slice"][0] == 0 and case["variant"] != "faulty":
